@@ -109,11 +109,66 @@ def vector_case(rep, replay: dict) -> None:
                      f"ParticleBeam: mean by {dmu:.3g}, covariance by {dcov:.3g} (scaled)", replay)
 
 
+def custom_map_case(rep, r: dict) -> None:
+    """a general linear element (CustomTransferMap with a full 6x6 block and an affine column, as an imported EMATRIX or a
+    merged map has): every moment of the ParameterBeam follows mu -> R mu, cov -> R cov R^T, like the particles do"""
+    import numpy as np
+    import torch
+    import cheetah
+    import lattices as LT
+    F64 = torch.float64
+    R = torch.tensor(r["matrix"], dtype=F64)
+    el = cheetah.CustomTransferMap(R, length=torch.tensor(r["L"], dtype=F64), dtype=F64)
+    if r["where"] == "segment":
+        el = cheetah.Segment([cheetah.Drift(length=torch.tensor(0.2, dtype=F64), dtype=F64), el])
+    P = np.array(r["particles"], dtype=float)
+    pb, mb = LT.particle_beam(P, r["energy"]), LT.parameter_beam_from(P, r["energy"])
+    po, mo = el.track(pb).particles, el.track(mb)
+    m2 = po.mean(dim=0)
+    c2 = torch.cov(po[:, :6].T)
+    sc = torch.tensor([1e-3, 1e-4, 1e-3, 1e-4, 1e-3, 1e-3], dtype=F64)
+    dmu = ((mo._mu[:6] - m2[:6]).abs() / sc)
+    dcov = ((mo._cov[:6, :6] - c2).abs() / (sc.unsqueeze(-1) * sc))
+    if not (float(dmu.max()) < 1e-7 and float(dcov.max()) < 1e-7):
+        names = ["x", "px", "y", "py", "tau", "delta"]
+        if not float(dmu.max()) < 1e-7:
+            what = "mean[" + names[int(dmu.argmax())] + "]"
+        else:
+            i, j = divmod(int(dcov.argmax()), 6)
+            what = f"cov[{names[i]},{names[j]}]"
+        rep.fail("falsifier", f"C06|CustomTransferMap|general 6x6 block|{what.split('[')[0]}:{'delta' if 'delta' in what else 'other'}",
+                 f"CustomTransferMap with a general matrix ({r['where']}): ParameterBeam {what} differs from the moments of the tracked "
+                 f"particles (mean by {float(dmu.max()):.3g}, covariance by {float(dcov.max()):.3g}, scaled)", r)
+
+
+def custom_map_probe(ctx, n: int) -> None:
+    import numpy as np
+    import elements as E
+    import lattices as LT
+    rep, rng = ctx.report, ctx.rng
+    for _ in range(n):
+        R = np.eye(7)
+        R[:6, :6] += rng.normal(size=(6, 6)) * 0.3 * (rng.random((6, 6)) < 0.5)
+        if rng.random() < 0.5:
+            R[:6, 6] = rng.normal(size=6) * np.array([1e-4, 1e-5, 1e-4, 1e-5, 1e-4, 1e-4])
+        r = {"kind": "custom_map", "matrix": R.tolist(), "L": float(E.pick(rng, 0.0, 0.5, 1.0)), "energy": float(E.energy(rng)),
+             "particles": LT.gen_particles(rng, 9).tolist(), "where": E.pick(rng, "alone", "segment")}
+        rep.fals_cases += 1
+        rep.count("probe:custom-map")
+        rep.case(("custom_map", r["where"]), None)
+        try:
+            custom_map_case(rep, r)
+        except Exception as ex:  # noqa: BLE001
+            rep.count(f"custom-map:rejected:{type(ex).__name__}")
+
+
 def run(ctx) -> None:
     run_track_correspondence(ctx, "C06", ctx.n(8, 200))
     vector_probe(ctx, ctx.n(16, 400))
     import context_probes as CP
     CP.diagnostics_probe(ctx, "C06", ctx.n(16, 400))
+    CP.retune_probe(ctx, "C06", ctx.n(18, 400))
+    custom_map_probe(ctx, ctx.n(12, 300))
     if F is not None:
         F.run(ctx)
 
@@ -124,6 +179,11 @@ def corpus_case(ctx, r: dict) -> None:
     if r.get("kind") == "diagnostic":
         import context_probes as CP
         return CP.diagnostics_case(ctx.report, "C06", r)
+    if r.get("kind") == "retune":
+        import context_probes as CP
+        return CP.retune_case(ctx.report, "C06", r)
+    if r.get("kind") == "custom_map":
+        return custom_map_case(ctx.report, r)
     if F is not None and hasattr(F, "corpus_case"):
         F.corpus_case(ctx, r)
 
